@@ -13,6 +13,7 @@ type mLayout struct {
 	colonGap   string // blanks after ':' in members
 	nameGap    string // blanks between a rule name and its ':'
 	closeGap   string // blanks before the '}' that closes a rule set
+	noteBreak  bool   // a multi-line annotation's note continues on the next line (OpenAPI harness only)
 	annGap     string // blanks between element and annotation
 	multi      bool   // write annotations as /* */ instead of //
 	quoteNames bool   // quote rule names
@@ -43,7 +44,16 @@ func mAnnotationL(n mNode, L mLayout) string {
 		if body != "" {
 			body += " - "
 		}
-		body += n.note
+		note := n.note
+		if L.multi && L.noteBreak {
+			for i := 1; i < len(note); i++ {
+				if note[i] == ' ' {
+					note = note[:i] + L.nl + note[i+1:]
+					break
+				}
+			}
+		}
+		body += note
 	}
 	if L.multi {
 		return L.annGap + "/* " + body + " */" + n.userComment
@@ -145,6 +155,15 @@ func mVaried() mLayout {
 	return L
 }
 
+// mNoteWith: a note ending in a symbolic letter, or a fixed one in the
+// concrete-notes mode.
+func mNoteWith(prefix, sc string) string {
+	if mConcreteNotes {
+		return prefix + "x"
+	}
+	return prefix + sc
+}
+
 var mModelNo int // the model chosen on this path (for the reachability witnesses)
 
 func mModel() mNode {
@@ -180,7 +199,7 @@ func mModel() mNode {
 		root := mNode{kind: schema.TokenTypeObject}
 		root.children = []mNode{
 			{kind: schema.TokenTypeNumber, key: "a", valText: d, valWant: d,
-				rules: []mRule{{"min", "3", mNum(schema.TokenTypeNumber, "3")}}, note: "note " + sc, userComment: " # c" + sc},
+				rules: []mRule{{"min", "3", mNum(schema.TokenTypeNumber, "3")}}, note: mNoteWith("note ", sc), userComment: " # c" + sc},
 			{kind: schema.TokenTypeNumber, key: "b", valText: d, valWant: d, note: "plain note", userComment: " # d"},
 			{kind: schema.TokenTypeString, key: "c", valText: `"` + sc + `"`, valWant: sc},
 		}
@@ -207,6 +226,33 @@ func mModel() mNode {
 // and trailing blank lines, // vs /* */, quoted vs bare rule names, # and ###
 // user comments): same verdict and code; when accepted the same AST, example
 // and used-type list.
+// ZzC14Pair hands the same layout pairs (with notes from a fixed list) to the
+// harness of package jsoac, which compares the OpenAPI Schema Objects.
+func ZzC14Pair() (*JSchema, *JSchema) {
+	mConcreteNotes = true
+	m := mModel()
+	base := mCanonical()
+	if zzverif.Bool("brokenNotes") {
+		// both layouts write /* */ annotations whose note continues on the
+		// next line: the description is the note with its blanks normalised
+		base.multi, base.noteBreak = true, true
+	}
+	t1 := mPrintL(m, base)
+	L2 := mVary(base, "1.")
+	if zzverif.Bound("dims", 1, 2) == 2 {
+		L2 = mVary(L2, "2.")
+	}
+	t2 := mPrintL(m, L2)
+	mk2 := func(text string) *JSchema {
+		s := New("s", text)
+		_ = s.AddRule("@e", enum.New("@e", "[1, 2, 3, 4, 5]"))
+		_ = s.AddType("@t", New("@t", `"x"`))
+		_ = s.AddType("@u", New("@u", `1`))
+		return s
+	}
+	return mk2(t1), mk2(t2)
+}
+
 func VerifC14_Layout() {
 	// every model must be accepted under some layout pair: a model that is
 	// always rejected (e.g. for a missing rule) would compare nothing
